@@ -33,8 +33,13 @@ ASSUMPTIONS = [
     "a header already on the wire when the LBAD arrives completes as a first transmission; a header first offered "
     "between the LBAD and our LRTY is discarded by the partner (it has not seen the LRTY yet), so only its sequence "
     "number (an accepted, unacknowledged header) is checked; the retransmission proper is what follows the LRTY",
+    "reading of the delayed flag on first transmissions (not stated by C39, checked as a by-product on the tracked header): "
+    "the header's own flag, except that a header accepted while a retry is outstanding -- from the LBAD until the "
+    "retransmission is complete and no accepted header still waits for its first transmission -- may carry DL = 1 "
+    "(USB3 7.2.1.1.3: DL is set when a header packet is resent or its transmission is delayed); DL is still required on "
+    "every retransmission and the own flag on every header accepted outside such a period",
 ]
-BOUNDS = "BMC from reset: quick K=24 (clean layer), K=20 (content) / K=12 (corruption free) / K=12 free (best effort); thorough K=36 / K=18 / K=20"
+BOUNDS = "BMC from reset: quick K=24 (clean layer; K=32 for tx_order / dl_flag), K=20 (content) / K=12 (corruption free) / K=12 free (best effort); thorough K=36 / K=18 / K=20"
 OUTSIDE = "DATA headers with payload (C36); disable/enable of the transmitter; credit timeout (5 ms); partner LGOODs " \
           "overlapping a retry"
 
@@ -56,7 +61,7 @@ class HeaderTxHarness(Harness):
                  "retry_req", "tx_format"]
         self.v = {n: self.viol(n) for n in names}
         cn = ["two_headers_sent", "retransmit_dl", "retire_then_reuse", "tracked_sent", "mismatch", "retx_two",
-              "fifth_header"]
+              "fifth_header", "held_new_sent", "fresh_after_retry"]
         self.c = {n: self.cover(n) for n in cn}
         self.a = {n: self.assume(n) for n in ("not_data", "credit_cap", "lrty", "quiet_retry", "ack_sent", "lbad_cause")}
 
@@ -214,6 +219,20 @@ class HeaderTxHarness(Harness):
         trk_lbad = Signal(name="trk_lbad_since")
         with m.If(is_lbad & trk_have):
             m.d.ss += trk_lbad.eq(1)
+        # a retry delays every header that has to wait behind it: from the LBAD until the retransmission is complete
+        # and no accepted header is left waiting for its first transmission.  USB3 7.2.1.1.3: DL "shall be set if a
+        # header packet is resent or the transmission of a header packet is delayed" -- the flag may be set on such a
+        # header although it is a first transmission.
+        backlog = Signal(name="g_backlog")         # LBAD seen since the transmit queue was last drained
+        held_up = Signal(name="g_held_up")         # a header accepted now waits behind a retry
+        m.d.comb += held_up.eq(retx_active | (backlog & (n_untx != 0)))
+        with m.If(is_lbad & (n_out != 0)):
+            m.d.ss += backlog.eq(1)
+        with m.Elif(~held_up):
+            m.d.ss += backlog.eq(0)
+        trk_held = Signal(name="trk_held_up")
+        with m.If(acc & (n_acc == self.k) & held_up):
+            m.d.ss += trk_held.eq(1)
 
         is_trk = Signal(name="is_trk")
         m.d.comb += is_trk.eq(trk_have & (w_seq == trk_seq))
@@ -225,8 +244,9 @@ class HeaderTxHarness(Harness):
             # retransmissions start at the oldest unacknowledged header, in order
             self.v["tx_order"].eq(ok & ev_hdr & Mux(limbo, ((w_seq - g_ack)[0:3] >= n_out),
                                                     Mux(retx_hit, w_seq != retx_ptr, (w_seq != g_tx) | (n_untx == 0)))),
-            # delayed flag: set on every retransmission; the header's own flag otherwise (tracked header)
-            self.v["dl_flag"].eq(ok & ev_hdr & ~limbo & Mux(retx_hit, ~w_dl, is_trk & (w_dl != trk[105]) & ~(w_dl & trk_lbad))),
+            # delayed flag: set on every retransmission; the header's own flag otherwise (tracked header), except that a
+            # header held up by a retry may carry it as well
+            self.v["dl_flag"].eq(ok & ev_hdr & ~limbo & Mux(retx_hit, ~w_dl, is_trk & (w_dl != trk[105]) & ~(w_dl & (trk_lbad | trk_held)))),
             # content of the tracked header, first transmission and retransmission alike
             self.v["tx_content"].eq(ok & ev_hdr & is_trk & ((Cat(*cap) != trk[0:96]) | (w_rest != Cat(trk[99:105], trk[106])))),
             # mismatching LCRD / LGOOD -> recovery requested
@@ -237,6 +257,9 @@ class HeaderTxHarness(Harness):
         retired_seen = Signal(name="retired_seen")
         with m.If(retire):
             m.d.ss += retired_seen.eq(1)
+        lbad_seen = Signal(name="lbad_seen")
+        with m.If(is_lbad):
+            m.d.ss += lbad_seen.eq(1)
         retx_cnt = Signal(2, name="retx_cnt")
         with m.If(retx_hit & (retx_cnt != 3)):
             m.d.ss += retx_cnt.eq(retx_cnt + 1)
@@ -248,6 +271,10 @@ class HeaderTxHarness(Harness):
             self.c["mismatch"].eq(~lost & mismatch & dut.recovery_required),
             self.c["retx_two"].eq(ok & retx_hit & (retx_cnt == 1)),
             self.c["fifth_header"].eq(ok & first_tx & (n_sent == 4)),
+            # a header accepted behind a retry goes out for the first time / a header accepted after a finished retry
+            # goes out (the "own flag" clause is live again)
+            self.c["held_new_sent"].eq(ok & first_tx & ~retx_hit & is_trk & trk_held),
+            self.c["fresh_after_retry"].eq(ok & first_tx & ~retx_hit & is_trk & ~trk_held & ~trk_lbad & lbad_seen),
         ]
         self.obs("ev_hdr", ev_hdr)
         w_seq_o = Signal(3, name="w_seq_o")
@@ -271,6 +298,9 @@ class HeaderTxHarness(Harness):
         return d
 
 
+RETX_K = 32        # the shortest history with two headers in flight and an LBAD landing on the second one's last word
+
+
 def queries(tier):
     quick = tier == "quick"
     f = HeaderTxHarness
@@ -280,9 +310,9 @@ def queries(tier):
     qs = [Query("bmc_content", f, 20 if quick else 28, layer=dict(clean, k=0), split=False, timeout=3000, asserts=["tx_content"],
                 covers=[], desc="layer as bmc_clean, tracked header = first accepted: its 96 data bits and link control "
                                 "fields on the wire (first transmission and retransmission) equal what the protocol layer queued"),
-          Query("bmc_clean", f, 24 if quick else 36, layer=clean, split=False, timeout=3000, hints=hint, asserts=ctl,
+          Query("bmc_clean", f, 24 if quick else 36, layer=clean, split=not quick, timeout=3000, hints=hint, asserts=ctl,
                 covers=["two_headers_sent", "retransmit_dl", "retire_then_reuse", "tracked_sent", "mismatch"] +
-                       ([] if quick else ["retx_two", "fifth_header"]),
+                       ([] if quick else ["retx_two", "fifth_header", "held_new_sent", "fresh_after_retry"]),
                 desc="layer: PHY always ready, partner commands uncorrupted and without invalid cycles; command kinds, "
                      "subtypes, timing, header queue (valid and content), LRTY timing free"),
           Query("bmc_corrupt", f, 12 if quick else 18, layer={"ready": 1}, split=False, timeout=2000, covers=[], asserts=ctl,
@@ -291,8 +321,8 @@ def queries(tier):
                 desc="best effort: everything free incl. PHY ready")]
     if quick:
         # the retransmission clauses need two headers on the wire and an LBAD at any cycle relative to them: deeper than
-        # the K=24 of bmc_clean, but these two assertions stay cheap
-        qs.append(Query("bmc_clean_retx", f, 32, layer=clean, timeout=3000, asserts=["tx_order", "dl_flag"], covers=[],
-                        desc="layer as bmc_clean, deeper: order and delayed flag of (re)transmitted headers"))
+        # the K=24 of bmc_clean (one process per assertion: dl_flag ~90 s, tx_order ~450 s solver time at K=32)
+        qs.append(Query("bmc_clean_retx", f, RETX_K, layer=clean, timeout=3000, asserts=["tx_order", "dl_flag"], covers=["held_new_sent"],
+                        hints=hint, desc="layer as bmc_clean, deeper: order and delayed flag of (re)transmitted headers"))
     qs.append(Query("cosim", f, 0, kind="cosim", cosim_cycles=200 if quick else 1000))
     return qs
